@@ -316,6 +316,56 @@ class Case:
         for path, what, val in out[:6]:
             ek = path.split(":")[0]
             ctx.violation("delete:%s:%s:%s.%s" % (kind, what, ek, field_of(path)), dict(info, where=path, detail=val), dict(self.rep, upto=di))
+        if not out and not left and kind != "Feature" and rng.random() < 0.6:
+            self.successor(B, kind, cont, victim_name=nm, victim_id=victim.id, ids=ids, info=info, di=di)
+
+    def successor(self, B, kind, cont, victim_name, victim_id, ids, info, di):
+        """A new entity created under the deleted one's name, through the very container object the deletion went through:
+        the list must yield the new entity (under the name, at the end, by id) and never the deleted one."""
+        nix, ctx = self.nix, self.ctx
+        parent = cont._parent
+        try:
+            if kind == "Block":
+                new = B.f.create_block(victim_name, "successor")
+            elif kind == "DataArray":
+                new = parent.create_data_array(victim_name, "successor", data=[1.0, 2.0])
+            elif kind == "DataFrame":
+                from collections import OrderedDict
+                new = parent.create_data_frame(victim_name, "successor", col_dict=OrderedDict([("n", nix.DataType.Int64)]), data=[(1,)])
+            elif kind == "Tag":
+                new = parent.create_tag(victim_name, "successor", [0.0])
+            elif kind == "MultiTag":
+                arrs = [d for d in parent.data_arrays if d.dtype.kind == "f" and d.size]
+                if not arrs:
+                    return
+                new = parent.create_multi_tag(victim_name, "successor", arrs[0])
+            elif kind == "Group":
+                new = parent.create_group(victim_name, "successor")
+            elif kind in ("Source", "NestedSource"):
+                new = parent.create_source(victim_name, "successor")
+            elif kind in ("Section", "NestedSection"):
+                new = (B.f if kind == "Section" else parent).create_section(victim_name, "successor")
+            elif kind == "Property":
+                new = parent.create_property(victim_name, [1, 2])
+            else:
+                return
+        except Exception as e:
+            ctx.violation("delete:%s:name_of_deleted_not_available:%s" % (kind, type(e).__name__), dict(info, error=repr(e)[:300]), dict(self.rep, upto=di))
+            return
+        ctx.count("successors_created")
+        B.born(new, "File" if kind in ("Block", "Section") else parent.id, cont._name)
+        B.expect(new, "type", "successor") if kind != "Property" else None
+        try:
+            seen = [x.id for x in cont]
+            facts = {"by_name": cont[victim_name].id, "last": cont[-1].id, "by_id": cont[new.id].id, "contains_new": new.id in cont,
+                     "contains_deleted": victim_id in cont, "iterated_deleted": sorted(set(seen) & ids)}
+        except Exception as e:
+            ctx.violation("delete:%s:successor_lookup_raises_%s" % (kind, type(e).__name__), dict(info, error=repr(e)[:300]), dict(self.rep, upto=di))
+            return
+        wrong = [k for k in ("by_name", "last", "by_id") if facts[k] != new.id]
+        if wrong or not facts["contains_new"] or facts["contains_deleted"] or facts["iterated_deleted"]:
+            ctx.violation("delete:%s:list_yields_deleted_after_successor:%s" % (kind, "+".join(wrong) or "membership"),
+                          dict(info, new_id=new.id, deleted_id=victim_id, facts=facts), dict(self.rep, upto=di))
 
     def judged_refused_delete(self, B, di):
         """Deleting from a container by the id of something that is not a member (an entity of the same kind in another block,
